@@ -96,15 +96,21 @@ def mangle(cls_name: str, attr: str) -> str:
 
 
 class Repo:
-    def __init__(self, root: Optional[str] = None):
+    def __init__(self, root: Optional[str] = None, overrides: Optional[Dict[str, str]] = None):
+        """`overrides` (rel path -> source text) replaces files in memory: used by the
+        self-validation to analyse a variant of the tree without touching /repo."""
         self.root = root or repo_root()
         self.modules: Dict[str, Module] = {}
         self.parse_failures: List[Tuple[str, str]] = []
-        for rel in sorted(self._py_files()):
+        overrides = overrides or {}
+        for rel in sorted(set(self._py_files()) | set(overrides)):
             path = os.path.join(self.root, rel)
             try:
-                with open(path, "r", encoding="utf-8") as fh:
-                    src = fh.read()
+                if rel in overrides:
+                    src = overrides[rel]
+                else:
+                    with open(path, "r", encoding="utf-8") as fh:
+                        src = fh.read()
                 tree = ast.parse(src, filename=rel)
             except (OSError, SyntaxError, UnicodeDecodeError) as exc:
                 self.parse_failures.append((rel, repr(exc)))
